@@ -1537,6 +1537,10 @@ bool Executor<OptionsTy>::pendingLoop(ThreadLocalData& tld) {
     // FIXME:    clearReleasable();
     tld.facing.resetFirstPass();
     ctx->resetFirstPass();
+    // pushes made during the inspection pass (before the cautious point) must
+    // not leak into the push buffer of the next task committed by this thread
+    if (OptionsTy::needsPush)
+      tld.facing.resetPushBuffer();
     switch (result) {
     case 0:
     case REACHED_FAILSAFE:
